@@ -277,3 +277,6 @@ func zzConc(x uint64, max int) uint64 { return x }
 
 func zzF32bits(f float32) uint32 { return math.Float32bits(f) }
 func zzF64bits(f float64) uint64 { return math.Float64bits(f) }
+
+// zzExpectSilent: from now on any write to fd 1/2 by the library is a finding (native: observed by the replay driver).
+func zzExpectSilent() {}
